@@ -318,8 +318,17 @@ def _argbest(lst, better):
     return bi
 
 
+def _argmax_list(l):
+    if l and all(isinstance(v, (SBool, bool, _np.bool_)) for v in l):
+        for i, v in enumerate(l):
+            if bool(v):
+                return i
+        return 0
+    return _argbest(l, lambda x, y: x > y)
+
+
 def sargmax(a, axis=None, **k):
-    return _reduce_axis(a, axis, lambda l: _argbest(l, lambda x, y: x > y))
+    return _reduce_axis(a, axis, _argmax_list)
 
 
 def sargmin(a, axis=None, **k):
